@@ -131,7 +131,13 @@ func (m *M) mapLookup(p *path, fr *Frame, x *ssa.Lookup) {
 	c := m.c
 	mt, ok := x.X.Type().Underlying().(*types.Map)
 	if !ok {
-		panic(unsupported("string index"))
+		sv := m.get(p, fr, x.X).(VStr)
+		idx := m.get(p, fr, x.Index).(VInt).T
+		if idx.S != 64 {
+			idx = c.ZExt(int(64-idx.S), idx)
+		}
+		m.set(p, fr, x, m.strIndex(p, x, sv, idx))
+		return
 	}
 	k := m.get(p, fr, x.Index)
 	var val Value = m.zero(mt.Elem())
